@@ -7,8 +7,10 @@ PROP=$1; NAME=$2; SRC=$3; shift 3
 CHECKS=${*:-$PROP}
 DST=/verif/seeded/$NAME
 mkdir -p $DST
-cp -r $SRC/patch.diff $SRC/meta.json $DST/ 2>/dev/null
-rm -rf $DST/demo; cp -r $SRC/demo $DST/demo
+if [ "$(readlink -f $SRC)" != "$(readlink -f $DST)" ]; then
+  cp -r $SRC/patch.diff $SRC/meta.json $DST/ 2>/dev/null
+  rm -rf $DST/demo; cp -r $SRC/demo $DST/demo
+fi
 S=/tmp/seedeval.$$; rm -rf $S; mkdir -p $S
 rsync -a --exclude _build --exclude .git /repo/ $S/orig/
 rsync -a --exclude _build --exclude .git /repo/ $S/chg/
